@@ -59,7 +59,15 @@ impl<T: TokenStream> ParserBase<T> {
     }
 
     #[inline]
-    pub(crate) fn finish(self) -> (GreenNode, Vec<SyntaxError>) {
+    pub(crate) fn finish(mut self) -> (GreenNode, Vec<SyntaxError>) {
+        // a message that belongs to the end of the text (an unterminated conditional)
+        if self.current == TokenKind::Eof {
+            if let Some(message) = self.token_stream.take_error() {
+                let end = self.token_stream.cursor().try_into().expect("end is to large");
+                self.errors
+                    .push(SyntaxError::new(TextRange::new(end, end), message));
+            }
+        }
         (self.builder.finish(), self.errors)
     }
 
